@@ -73,6 +73,23 @@ func (x *Exec) call(st *State, c *ssa.Call) bool {
 	}
 	if x.havocHere(callee) {
 		// sound over-approximation of a callee that is not under contract here: arbitrary results, arbitrary heap
+		if x.fc != nil && len(st.frames) == 1 {
+			hk := calleeKey(callee)
+			if cls := x.fc.CallSites[hk]; len(cls) > 0 {
+				senv := x.contractEnv(st, nil, st.entry)
+				x.bindLocals(senv, st.top(), nil)
+				for i, a := range args {
+					senv.vars[fmt.Sprintf("$%d", i)] = a
+				}
+				n := x.callOrdinal(c)
+				for _, cl := range cls {
+					x.assert(st, fmt.Sprintf("site:call:%s#%d:%s", hk, n, cl.Label), senv.evalBool(cl.Expr), cl.Text, c.Pos())
+				}
+			}
+			if len(x.fc.CallGhost[hk]) > 0 {
+				x.callGhostUpdatesNamed(st, hk, SV{}, args, nil)
+			}
+		}
 		keeps := x.havocKeeps(callee)
 		for _, tn := range keeps {
 			why := x.prog.keepsCheck(callee, tn)
